@@ -730,7 +730,84 @@ def r03_14(ctx):
     return rr
 
 
-RULES = [r03_1, r03_2, r03_3, r03_4, r03_5, r03_6, r03_7, r03_8, r03_9, r03_10, r03_11, r03_12, r03_13, r03_14]
+def _replacements_inherit_consumers(func_node):
+    """In a simplify driver: every ``expr = out`` that puts a rewrite's result in place of the node being simplified is
+    directly preceded (same block) by a statement that hands the old node's recorded consumers to the new one - a call
+    ``f(expr, out)`` of a local helper that writes ``dependents[<new>._name]`` from ``dependents...(<old>._name)``, or
+    such a write inline.  Returns (number of replacement assignments, number of them that inherit)."""
+    helpers = set()
+    for n in ast.walk(func_node):
+        if isinstance(n, ast.FunctionDef) and n is not func_node and len(n.args.args) == 2:
+            old, new = n.args.args[0].arg, n.args.args[1].arg
+            txt = unparse(n)
+            if f"dependents[{new}._name]" in txt and f"{old}._name" in txt:
+                helpers.add(n.name)
+    # names that hold a rewrite's answer: ``out = expr._simplify_down()`` / ``out = child._simplify_up(expr, dependents)``
+    results = set()
+    for n in ast.walk(func_node):
+        if isinstance(n, ast.Assign) and len(n.targets) == 1 and isinstance(n.targets[0], ast.Name) and isinstance(n.value, ast.Call) and isinstance(n.value.func, ast.Attribute) and n.value.func.attr in ("_simplify_down", "_simplify_up"):
+            results.add(n.targets[0].id)
+    total = ok = 0
+    for blk in ast.walk(func_node):
+        for seq in [getattr(blk, "body", None), getattr(blk, "orelse", None)]:
+            if not isinstance(seq, list):
+                continue
+            for i, st in enumerate(seq):
+                if isinstance(st, ast.Assign) and len(st.targets) == 1 and isinstance(st.targets[0], ast.Name) and isinstance(st.value, ast.Name) and st.value.id in results and st.targets[0].id not in results:
+                    cur, res = st.targets[0].id, st.value.id
+                    total += 1
+                    prev = seq[i - 1] if i > 0 else None
+                    if prev is not None:
+                        t = unparse(prev)
+                        if any(t.startswith(f"{h}({cur}, {res})") for h in helpers) or (f"dependents[{res}._name]" in t and f"{cur}._name" in t):
+                            ok += 1
+    return total, ok
+
+
+def r03_15(ctx):
+    rr = RuleResult(
+        "R03.15", "PASS",
+        "writer/reader agreement on the dependents map the grid contract reads: the simplify driver hands the recorded consumers of a node to the node a rewrite puts in its place "
+        "(the map is collected once per pass while rewrites keep descending within the pass; without the hand-over a gate asked about a just-created node sees no consumers)",
+        min_instances=2,
+    )
+    repo = ctx.repo
+    base = repo.mod("dask_array._expr").cls("ArrayExpr")
+    reader = base.methods.get("_has_grid_sensitive_dependent")
+    reads = reader is not None and any(
+        (isinstance(n, ast.Call) and isinstance(n.func, ast.Attribute) and n.func.attr == "get" and isinstance(n.func.value, ast.Name) and n.func.value.id == "dependents")
+        or (isinstance(n, ast.Subscript) and isinstance(n.value, ast.Name) and n.value.id == "dependents")
+        for n in full_walk(reader.node)
+    )
+    need(reads, "the grid contract looks nodes up in the dependents map")
+    rr.inst(site(reader), reads="dependents[<node>._name]")
+    f = base.methods.get("simplify_once")
+    if f is not None:
+        total, ok = _replacements_inherit_consumers(f.node)
+        cst = site(f)
+        rr.inst(cst, replacement_assignments=total, inheriting=ok, driver="dask_array override")
+        if total < 2 or ok != total:
+            ctx.finding(rr, cst, f"ArrayExpr.simplify_once puts a rewrite's result in place of the node {total} time(s) but hands over the consumers only {ok} time(s)", func=f)
+        return rr
+    up = repo.module("dask._expr")
+    need(up is not None and "Expr" in up.classes and "simplify_once" in up.classes["Expr"].methods, "dask._expr.Expr.simplify_once (the driver in use)")
+    g = up.classes["Expr"].methods["simplify_once"]
+    total, ok = _replacements_inherit_consumers(g.node)
+    cst = "dask/_expr.py::Expr.simplify_once (inherited by ArrayExpr)"
+    rr.inst(cst, replacement_assignments=total, inheriting=ok, driver="upstream")
+    if total < 2 or ok != total:
+        ctx.finding(
+            rr, cst,
+            f"the simplify driver ArrayExpr inherits replaces the node being simplified {total} time(s) (after _simplify_down, after a child's _simplify_up) and never records who consumes the "
+            f"replacement: _has_grid_sensitive_dependent then finds no consumers for a node created earlier in the same pass and lets a grid-changing pushdown through under a per-block literal - "
+            f"da.repeat((d[1:] - d[:-1])[:, None], 2, axis=0) raised 'Dimension 0 has 2 blocks, adjust_chunks specified with 1 blocks' (the piece slice went through ExpandDims, was fused with an identity slice by a "
+            f"_simplify_down, and the fused node's consumers were unknown)",
+            file=up.path, line=g.node.lineno,
+        )
+    return rr
+
+
+RULES = [r03_1, r03_2, r03_3, r03_4, r03_5, r03_6, r03_7, r03_8, r03_9, r03_10, r03_11, r03_12, r03_13, r03_14, r03_15]
 
 LEVEL_TEXT = (
     "Static decision of the layout-barrier clause of C03 ('even when optimization internally chose a different block "
